@@ -24,12 +24,14 @@ ASSUMPTIONS = [
     'lst *= n with n >= 2 on a list that holds containers makes the copies share them (aliasing): outside the tree model, not generated',
     'extended slices (step != 1), sort(key=...) and list.sort on mixed-type lists are exercised by the search only, not in the Coq model',
     'TrackedArray is modelled as a TrackedList of ints with the method table TrackedArray exposes; item validation errors are checked by the harness only',
+    'values move between owners only through the storing methods (which copy via TrackedValue.make); whole-attribute assignment obj.j = other.j[..] is not in the operation language',
     'the object is alive and its session is open (tracked_method skips everything for a dead weakref; a closed session raises)',
 ]
 RULE = ('correspondence: seeded random scenarios = (document of depth <= 3, sequence of 1..10 operations drawn from every list / dict mutator at random depths, '
         'reads, commit, new session; ~12% deliberately invalid indexes / keys / receiver types), plus one scenario per mutator and depth; each scenario is one vm_compute '
         'boolean comparing the full state trace. search: sweep over every CPython mutator name x argument shape x container position, every reader name, '
-        'and seeded random sequences with commit + reload in a fresh session; non-trivial = the sequence changed the value (distinct canonical scenarios counted)')
+        'seeded random sequences with commit + reload in a fresh session, and worlds of 2 objects x 2 Json attributes where nested containers read from one owner are stored into another '
+        '(every storing method, same object / other object, commit / flush) and then changed in place through the new owner; non-trivial = the sequence changed the value (distinct canonical scenarios counted)')
 
 KEYS = ['a', 'b', 'c', 'd', 'k1', 'x y']
 STRS = ['', 'a', 'b', 'ab', 'z']
@@ -255,7 +257,7 @@ def cops(ops):
 def cstate(st):
     return '{| root := %s; dirty := %s; dbval := %s |}' % (ctv(st['root']), cbool(st['dirty']), _cjv_obs(st['db']))
 
-HEADER = ('Require Import PonyV.Base.PyBase PonyV.Model.C28Tracked PonyV.Gen.Mutators PonyV.Model.C28Wrapped.\nOpen Scope Z_scope.\n')
+HEADER = ('Require Import PonyV.Base.PyBase PonyV.Model.C28Tracked PonyV.Gen.Mutators PonyV.Model.C28Wrapped PonyV.Model.C28Multi.\n#[local] Open Scope Z_scope.\n')
 
 
 def run_bools(ctx, exprs, chunk=280):
@@ -273,6 +275,106 @@ def run_bools(ctx, exprs, chunk=280):
             for tok in inner.split(';'):
                 bad.append(k * chunk + int(tok.strip().replace('%nat', '')))
     return bad
+
+
+# ------------------------------------------------------------------------------------------------ several owners (2 objects x 2 Json attributes)
+
+HOWS_LIST = [['setl', 0], ['append'], ['insert', 0], ['extend', True], ['extend', False], ['iadd']]
+HOWS_DICT = [['setd', 'k'], ['update', 'k'], ['setdefault', 'n'], ['ior', 'k'], ['embed', 'e', 'in']]
+
+def gen_wops(rng, docs, n):
+    shadow = copy.deepcopy(docs)
+    ops = []
+    for _ in range(n):
+        r = rng.random()
+        if r < 0.12: ops.append({'m': rng.choice(['commit', 'flush'])}); continue
+        if r < 0.18: ops.append({'m': 'newsession'}); continue
+        if r < 0.55:
+            src, dst = rng.randrange(4), rng.randrange(4)
+            sp, sv = rng.choice(containers(shadow[src]))
+            if rng.random() < 0.25 and sp: sp = sp[:-1] + [rng.choice(['nokey', 99])]            # sometimes a source path that does not exist
+            dp, c = rng.choice(containers(shadow[dst]))
+            if src == dst and (sp[:len(dp)] == dp or dp[:len(sp)] == sp): continue                 # no container stored into itself / its own ancestor
+            how = list(rng.choice(HOWS_LIST if isinstance(c, list) else HOWS_DICT))
+            if how[0] in ('setl', 'insert'): how[1] = gen_index(rng, len(c), rng.random() < 0.85)
+            if how[0] in ('setd', 'update', 'setdefault', 'ior'): how[1] = rng.choice(KEYS[:4])
+            if how[0] == 'update' and not how[1].isidentifier(): how[1] = 'k'
+            op = {'m': 'copy', 'src': src, 'sp': sp, 'dst': dst, 'dp': dp, 'how': how}
+        else:
+            s_ = rng.randrange(4)
+            path, c = rng.choice(containers(shadow[s_]))
+            if rng.random() < 0.2:
+                op = {'s': s_, 'p': path, 'm': 'read', 'a': [rng.choice(READERS['list' if isinstance(c, list) else 'dict'])]}
+            elif isinstance(c, list):
+                m, a = gen_list_op(rng, c); op = {'s': s_, 'p': path, 'm': m, 'a': a}
+            else:
+                m, a = gen_dict_op(rng, c); op = {'s': s_, 'p': path, 'm': m, 'a': a}
+        ops.append(op)
+        if op['m'] != 'read': c28_impl.plain_wstep(shadow, op)
+    return ops
+
+def cstore(how):
+    k = how[0]
+    if k == 'setl': return '(SSetL %s)' % cz(how[1])
+    if k == 'append': return 'SAppend'
+    if k == 'insert': return '(SInsert %s)' % cz(how[1])
+    if k == 'extend': return '(SExtend %s)' % cbool(how[1])
+    if k == 'iadd': return 'SIAdd'
+    if k == 'setd': return '(SSetD %s)' % czs(how[1])
+    if k == 'update': return '(SUpdate %s)' % czs(how[1])
+    if k == 'setdefault': return '(SSetDefault %s)' % czs(how[1])
+    if k == 'ior': return '(SIOr %s)' % czs(how[1])
+    if k == 'embed': return '(SEmbed %s %s)' % (czs(how[1]), czs(how[2]))
+    raise ValueError(how)
+
+def cwops(ops):
+    out, sess = [], 0
+    for op in ops:
+        m = op['m']
+        if m in ('commit', 'flush'): out.append('WCommit')
+        elif m == 'newsession': sess += 1; out.append('(WNewSession %d%%nat)' % sess)
+        elif m == 'copy': out.append('(WCopy %d%%nat %s %d%%nat %s %s)' % (op['src'], cpath(op['sp']), op['dst'], cpath(op['dp']), cstore(op['how'])))
+        else: out.append('(WAct %d%%nat %s %s)' % (op['s'], cpath(op['p']), cact(m, op['a'])))
+    return '[%s]' % ';\n  '.join(out)
+
+def cwtag(t): return 'None' if t is None else '(Some (%d%%nat, %d%%nat))' % (t[0], t[1])
+
+def cwtv(t):
+    if isinstance(t, list) and len(t) == 3 and t[0] == 'D' and (t[1] is None or isinstance(t[1], list)):
+        return '(TDict %s [%s])' % (cwtag(t[1]), '; '.join('(%s, %s)' % (czs(k), cwtv(x)) for k, x in t[2]))
+    if isinstance(t, list) and len(t) == 3 and t[0] == 'L' and (t[1] is None or isinstance(t[1], list)):
+        return '(TList %s [%s])' % (cwtag(t[1]), '; '.join(cwtv(x) for x in t[2]))
+    return ctv(t)
+
+def cworld(slots):
+    return '[%s]' % '; '.join('{| root := %s; dirty := %s; dbval := %s |}' % (cwtv(s['root']), cbool(s['dirty']), _cjv_obs(s['db'])) for s in slots)
+
+def world_expr(docs, ops):
+    trace = c28_impl.run_wtrace(docs, ops)
+    expr = 'worlds_eqb (wscan wr_gen %s (wload_from 0 0 %s)) [%s]' % (cwops(ops), cjvs(docs), ';\n '.join(cworld(t['slots']) for t in trace))
+    return expr, trace
+
+WDOCS = [{'tags': ['r', 'g'], 'opts': {'depth': {'n': 1}}, 'l': [[1], [2]]}, {'tags': [], 'opts': {}, 'l': [[0]]},
+         {'tags': ['b'], 'opts': {'x': {}}, 'l': [[5]]}, {'tags': [], 'opts': {}, 'l': [[0]]}]
+
+def world_sweep():
+    """every storing method x (other object | other attribute of the same object) x (commit | flush) : read a nested container from slot 0, store it,
+    write the pending change, change the stored container in place through the new owner"""
+    for dst in (2, 1):
+        for fl in ('commit', 'flush'):
+            for sp in (['tags'], ['opts', 'depth'], ['l', 0]):
+                for how in HOWS_LIST:
+                    dp = ['l'] if how[0] in ('setl', 'insert') else ['tags']
+                    yield dst, fl, sp, dp, list(how)
+                for how in HOWS_DICT:
+                    for dp in (['opts'], []):
+                        yield dst, fl, sp, dp, list(how)
+
+def sweep_ops(dst, fl, sp, dp, how):
+    at = c28_impl.stored_at(dp, how)
+    val = navigate(WDOCS[0], sp)
+    inplace = {'s': dst, 'p': at, 'm': 'append', 'a': [9]} if isinstance(val, list) else {'s': dst, 'p': at, 'm': 'dsetitem', 'a': ['zz', 1]}
+    return [{'m': 'copy', 'src': 0, 'sp': sp, 'dst': dst, 'dp': dp, 'how': how}, {'m': fl}, inplace]
 
 
 # ------------------------------------------------------------------------------------------------ scenarios
@@ -346,9 +448,27 @@ def correspondence(ctx):
         if trace and (c28_impl.untag(trace[-1]['root']) != doc or any(st['dirty'] for st in trace)):
             nontrivial.add(json.dumps([kind, doc, ops], sort_keys=True))
         if len(samples) < 3 and len(ops) >= 4: samples.append({'kind': kind, 'doc': doc, 'ops': ops, 'final_state': trace[-1]})
+    # several owners: systematic store-flush-mutate traces and random worlds
+    wscen = [(WDOCS, sweep_ops(*c)) for n_, c in enumerate(world_sweep()) if n_ % ctx.scale(3, 1) == 0]
+    for _ in range(ctx.scale(70, 700)):
+        docs = [gen_doc(rng) for _ in range(4)]
+        wscen.append((docs, gen_wops(rng, docs, rng.randint(2, 9))))
+    dist['scenarios_world'] = len(wscen)
+    for docs, ops in wscen:
+        try:
+            expr, trace = world_expr(docs, ops)
+        except Exception as e:
+            disagreements.append({'what': 'harness could not run / serialise the world scenario: %s: %s' % (type(e).__name__, e), 'input': {'world': True, 'docs': docs, 'ops': ops}})
+            continue
+        exprs.append(expr); meta.append(('world', docs, ops, trace))
+        for op in ops: dist['ops']['w:' + op['m']] = dist['ops'].get('w:' + op['m'], 0) + 1
+        if any(s['dirty'] for t in trace for s in t['slots']): nontrivial.add(json.dumps(['world', docs, ops], sort_keys=True))
     bad = run_bools(ctx, exprs)
     for i in bad[:10]:
         kind, doc, ops, trace = meta[i]
+        if kind == 'world':
+            disagreements.append({'what': 'model and implementation differ (state trace, several owners)', 'input': {'world': True, 'docs': doc, 'ops': ops}, 'impl': trace[-1]})
+            continue
         # locate the first differing step for the report
         first = None
         for k in range(1, len(ops) + 1):
@@ -506,6 +626,42 @@ def search(ctx, deep):
                     record(Failure('read-dirties:%s.%s' % (tname, name), 'reading through %s.%s marks the object modified (status %s) or changes the value' % (tname, name, status),
                                    {'kind': 'json', 'doc': doc, 'ops': ops, 'check': 'read'}))
 
+    # (d) several owners: store a container read from another owner, write, change it in place through the new owner
+    def wcheck(docs, ops):
+        try: return c28_impl.run_wproperty(docs, ops)
+        except Exception as e: return {'lost': True, 'crash': '%s: %s' % (type(e).__name__, e), 'foreign': None, 'seen': None, 'reloaded': None}
+    def wfailure(docs, ops, res):
+        copies = [op for op in ops if op['m'] == 'copy']
+        how = copies[-1]['how'][0] if copies else 'none'
+        rel = 'none' if not copies else ('same-object' if copies[-1]['src'] // 2 == copies[-1]['dst'] // 2 else 'other-object')
+        if res.get('crash'): key, what = 'crash:world', 'sequence crashed: %s' % res['crash']
+        elif res['foreign']: key, what = 'cross-owner:wrong-owner-notified:%s:%s' % (how, rel), 'an operation through slot %d changed slot %d (value or write bit)' % (res['foreign']['through'], res['foreign']['slot'])
+        else: key, what = 'cross-owner:change-through-new-owner-lost:%s:%s' % (how, rel), 'the program sees %r, a fresh session reloads %r' % (res['seen'], res['reloaded'])
+        return Failure(key, ('several owners (slots 0,1 = object A j1,j2; 2,3 = object B), initial %s, ops %s: %s' % (json.dumps(docs), json.dumps(ops), what))[:1100],
+                       {'world': True, 'docs': docs, 'ops': ops})
+    dist['world_sweep'] = 0; dist['world_random'] = 0
+    for c in world_sweep():
+        ops = sweep_ops(*c)
+        res = wcheck(WDOCS, ops)
+        evals += 1; dist['world_sweep'] += 1
+        nontriv.add(json.dumps(['world', ops], sort_keys=True))
+        if res['lost'] or res['foreign']: record(wfailure(WDOCS, ops, res))
+    for _ in range(ctx.scale(60, 600) if not deep else ctx.scale(250, 1500)):
+        docs = [gen_doc(rng) for _ in range(4)]
+        ops = gen_wops(rng, docs, rng.randint(2, 9))
+        res = wcheck(docs, ops)
+        evals += 1; dist['world_random'] += 1
+        if any(op['m'] == 'copy' for op in ops): nontriv.add(json.dumps(['world', docs, ops], sort_keys=True))
+        if res['lost'] or res['foreign']:
+            cur = list(ops); changed = True
+            while changed:
+                changed = False
+                for i in range(len(cur)):
+                    cand = cur[:i] + cur[i + 1:]
+                    r2 = wcheck(docs, cand) if cand else {'lost': False, 'foreign': None}
+                    if r2['lost'] or r2['foreign']: cur, res, changed = cand, r2, True; break
+            record(wfailure(docs, cur, res))
+
     # (c) random sequences, commit + reload in a fresh session
     n = ctx.scale(150, 1500) if not deep else ctx.scale(600, 4000)
     for i in range(n):
@@ -524,6 +680,11 @@ def search(ctx, deep):
 
 def replay(ctx, data):
     load_tables()
+    if data.get('world'):
+        res = c28_impl.run_wproperty(data['docs'], data['ops'])
+        if res['lost'] or res['foreign']:
+            return Failure('cross-owner', 'several owners: %s' % ('an operation through one owner changed another owner' if res['foreign'] else 'the program sees %r, a fresh session reloads %r' % (res['seen'], res['reloaded'])), data)
+        return None
     kind, doc, ops = data['kind'], data['doc'], data['ops']
     if data.get('check') == 'read':
         s = c28_impl.Session(kind, doc)
